@@ -157,9 +157,10 @@ class BaseTemplateMatcher(BasePickerModel):
         mask = self._tilt_model.create_mask(shape=template.shape)
         out = pool.compute()  # rotated templates
         templates = [o * mask for o in out]
-        # The landscape of a block lacks (template size + 1) voxels of the block: one more
-        # voxel of overlap is needed to reach the particles centered on a chunk border.
-        depth = tuple(np.ceil(np.array(templates[0].shape) / 2).astype(np.uint16) + 1)
+        # The landscape of a block lacks (template size + 1) voxels of the block, and its
+        # outermost entries can be the shoulder of a particle lying just outside of it. The
+        # overlap must keep the particles owned by a chunk off the border of the landscape.
+        depth = tuple((np.array(templates[0].shape) // 2 + 2).astype(np.uint16))
         return {"templates": templates}, depth
 
     def _index_to_quaternions(self, argmax_indices):
